@@ -4,3 +4,6 @@ import AxVerif.Model.Wire
 import AxVerif.Generated.Wire
 import AxVerif.Driver.Wire
 import AxVerif.Thm.C20
+import AxVerif.Model.Sql
+import AxVerif.Driver.Sql
+import AxVerif.Thm.C05
